@@ -32,7 +32,7 @@ func init() {
 			"hmac-md5 is documented as unsupported by the library: it must give an error, like an unknown algorithm",
 			"stable-second protocol around every TsigVerify call: time.Now().Unix() is read before and after, the call is repeated until both agree; window edges are re-signed until signing and verification saw the same second",
 			"Conn.ReadMsg returns a nil error for an unsigned reply (it only verifies when IsTsig() != nil); 'reported as verified' is taken as err == nil ∧ IsTsig() != nil",
-			"the server side (server.go response.tsigRequestMAC / TsigStatus) is not driven here",
+			"server side: 'verified' for a handler is IsTsig() != nil ∧ TsigStatus() == nil (TsigStatus is nil for unsigned requests); the server runs on real goroutines, every hand-over to it is a channel operation and no timeout is involved",
 		},
 		Spaces: c11Spaces})
 }
@@ -447,6 +447,7 @@ func c11Spaces(c *fw.Ctx) {
 	c11SpaceChain(c)
 	c11SpaceConn(c)
 	c11SpaceXfr(c)
+	c11SpaceServer(c)
 }
 
 // sign: TsigGenerate output against the reference, then verification with the right and with wrong
@@ -558,6 +559,32 @@ func c11Sign(r *fw.R, p c11Params) {
 				r.Fail("generate/time-zero", "TsigGenerate with TimeSigned=0 at second %d: %v\n got  %s\n want %s; %v", a, err, c11Hex(o2), c11Hex(w2), p)
 			}
 			break
+		}
+	}
+
+	// a stub whose Original ID differs from the header ID (e.g. a hand-built stub that leaves OrigId 0):
+	// the digest is over the Original ID, the emitted message keeps its own ID
+	if p.shape != 5 && p.ncase == 0 && p.fudge == 300 && !p.other {
+		for _, oid := range []int{0, 0x4321} {
+			q := p
+			q.origID = oid
+			o3, m3, err := direct.generate(q.msg(), req, p.timers)
+			w3, wm3, _ := rt.Sign(body, q.rec(), c11Secret(p.secret), req, p.timers)
+			switch {
+			case err != nil:
+				r.Fail("generate/error", "TsigGenerate: %v; %v", err, q)
+			case m3 != hex.EncodeToString(wm3):
+				r.Fail("generate/mac-original-id", "TsigGenerate MAC %s, RFC 8945 HMAC (over the Original ID) %x; %v", m3, wm3, q)
+			case !bytes.Equal(o3, w3) && len(o3) == len(w3) && bytes.Equal(o3[2:], w3[2:]):
+				r.Fail("generate/header-id-replaced-by-original-id", "message ID %#04x, stub OrigId %#04x: TsigGenerate emitted header ID %#04x (the rest of the octets and the MAC are as the reference says); %v\n got  %s\n want %s",
+					0x1234, oid, binary.BigEndian.Uint16(o3), q, c11Hex(o3), c11Hex(w3))
+			case !bytes.Equal(o3, w3):
+				r.Fail("generate/octets", "TsigGenerate output differs from Pack(msg) ‖ TSIG RR with ARCOUNT+1; %v\n got  %s\n want %s", q, c11Hex(o3), c11Hex(w3))
+			}
+			if err == nil {
+				// whatever ID is on the wire, the receiver restores the Original ID: must verify
+				direct.judge(r, w3, req, p.timers, true, "reference-signed message whose header ID differs from the Original ID", q)
+			}
 		}
 	}
 
